@@ -466,6 +466,24 @@ class NP:
         ind = Arr(x.shape, lambda *idx: T.mk_ind(C(xf(*idx)) if isb else T.cmp_cond("!=", P(xf(*idx)), ZERO)), "int", x.kind)
         return ind.sum(axis=axis)
 
+    def nonzero(self, x):
+        """np.nonzero of a 1-d array: the tuple holding the selected positions (as np.where(cond))"""
+        used("np.nonzero")
+        x = lift(x)
+        if not isinstance(x, Arr) or x.ndim != 1:
+            raise ModelError("np.nonzero on a non-1-d array")
+        return (self.flatnonzero(x),)
+
+    def result_type(self, *args):
+        """the common dtype: float64 as soon as one operand is floating (all the code base asks for)"""
+        used("np.result_type")
+        for a in args:
+            if A.floaty(a) or (isinstance(a, Arr) and a.dtype == "real") or isinstance(a, (float, Poly)):
+                return self.float64
+        if all((isinstance(a, Arr) and a.dtype in ("int", "bool")) or a is int or isinstance(a, int) for a in args):
+            return self.int64
+        raise ModelError("np.result_type of %s" % ", ".join(type(a).__name__ for a in args))
+
     def flatnonzero(self, x):
         used("np.flatnonzero")
         x = lift(x)
@@ -543,11 +561,19 @@ class NP:
 
     def bincount(self, idx, weights=None, minlength=0):
         used("np.bincount")
-        if weights is not None:
-            raise ModelError("bincount with weights")
         if isinstance(idx, Concat):
+            if weights is not None:
+                raise ModelError("bincount of a concatenation with weights")
             return idx.bincount(minlength)
         idx = lift(idx)
+        if weights is not None:
+            w = lift(weights)
+            if not isinstance(idx, Arr) or idx.ndim != 1 or not isinstance(w, Arr) or w.ndim != 1:
+                raise ShapeError("bincount: object too deep / weights not 1-d")
+            if not A.dim_eq(idx.shape[0], w.shape[0]):
+                raise PyRaise("ValueError", "The weights and list don't have the same length.")
+            n_, ifn, wfn = idx.shape[0], idx.fn, w.fn
+            return Arr((P(minlength),), lambda k: T.Sum(n_, lambda s: T.mk_ind(T.cmp_cond("==", ifn(s), k)) * P(wfn(s)), "s"), "real", idx.kind)
         if not isinstance(idx, Arr) or idx.ndim != 1:
             raise ShapeError("bincount: object too deep / not 1-d")
         n = idx.shape[0]
